@@ -401,3 +401,18 @@ Proof.
     erewrite map_ext; [rewrite map_id; reflexivity | apply toReq_toKV]. }
   split; [exact Hres | rewrite cleanup_abs; exact Hres].
 Qed.
+
+(* non-vacuity: a file with a duplicated requirement, one request *)
+Definition example_dup_file : file :=
+  let line (t : list str) := mkHL no_coms t false in
+  mkEFile (mkSyn [line [B "require"; B "a.b/c"; B "v1.0.0"]; line [B "require"; B "a.b/c"; B "v1.1.0"]] 0 no_coms
+                 [SLine 0%nat; SLine 1%nat])
+          None None None []
+          [mkRequire (B "a.b/c") (B "v1.0.0") false (Some 0%nat); mkRequire (B "a.b/c") (B "v1.1.0") false (Some 1%nat)]
+          [] [] [] [] [].
+
+Lemma set_require_exact_nonvacuous :
+  distinct_paths (map req_path [(B "a.b/c", B "v1.2.0", true)]) = true /\
+  exists f', set_require example_dup_file [(B "a.b/c", B "v1.2.0", true)] = Some f'
+             /\ k_require (abs (cleanup f')) = [(B "a.b/c", B "v1.2.0", true)].
+Proof. split; [reflexivity|]. vm_compute. eexists. split; reflexivity. Qed.
